@@ -3,11 +3,14 @@
 mod orc;
 #[path = "../../c02/src/toy_cfg.rs"]
 mod toy_cfg;
+#[path = "../../c02/src/zoo_cfg.rs"]
+pub mod zoo_cfg;
 
 use ark_ec::models::short_weierstrass::{Affine as SwAffine, SWCurveConfig};
 use ark_ec::models::twisted_edwards::{Affine as TeAffine, TECurveConfig};
 use ark_ff::fields::fp6_2over3 as f6q;
-use ark_ff::fields::{Fp, Fp2, Fp3, Fp4, LegendreSymbol, MontBackend};
+use ark_ff::fields::{Fp, Fp12, Fp2, Fp3, Fp4, Fp6, LegendreSymbol, MontBackend, MontConfig, SqrtPrecomputation};
+use ark_ff::{FftField, Field, PrimeField};
 use num_bigint::BigUint;
 use num_traits::{One, Zero};
 use orc::*;
@@ -262,6 +265,115 @@ fn field_all<F: OracleRepr>(out: &mut Vec<Rel>, name: &str) {
     out.push(Rel::new(format!("sqrt-all/{}", name), 0, d, move |t, o| sqrt_all::<F>(&f, t, o)).exhaustive(move || all_tapes(p, d)));
 }
 
+/// `legendre()` alone, for the towers without a square-root algorithm (Fp6-3over2, Fp12: `sqrt` is unimplemented there,
+/// the residue test is not)
+fn legendre_rel<F: OracleRepr>(f: &Fld, t: &mut Tape<'_>, o: &mut Obs) -> R {
+    let (xe, cls, _) = gen_input(t, f);
+    o.show(|| format!("{}: legendre(x), x={} [{}]", f.c.name, show(&xe), cls));
+    o.class(cls);
+    let c = &f.c;
+    let zero = c.tw.is_zero(&xe);
+    let sq = c.euler_is_square(&xe);
+    o.nt(!zero && !c.is_one(&xe) && (!sq || f.in_proper_subfield(&xe)));
+    o.class_if(!sq, "non-residue");
+    o.class_if(sq && !zero, "residue");
+    o.class_if(f.in_proper_subfield(&xe) && !zero, "in-proper-subfield");
+    o.evals(1);
+    let want = if zero {
+        LegendreSymbol::Zero
+    } else if sq {
+        LegendreSymbol::QuadraticResidue
+    } else {
+        LegendreSymbol::QuadraticNonResidue
+    };
+    let got = no_panic("legendre", || F::from_o(&xe).legendre())?;
+    ensure!(got == want, "legendre", "legendre({}) = {:?}, Euler's criterion says {:?}", show(&xe), got, want);
+    Ok(())
+}
+
+fn legendre_rels<F: OracleRepr>(out: &mut Vec<Rel>, name: &str, cases: u32) {
+    let f = Fld::new::<F>(name);
+    let w = words(&f);
+    out.push(Rel::new(format!("legendre/{}", name), cases, w, move |t, o| legendre_rel::<F>(&f, t, o)).shrink_iters(200));
+}
+
+/// Both public precomputation variants called directly on a prime field (`SqrtPrecomputation::sqrt` is a public
+/// function): Tonelli-Shanks assembled from the field's public constants for *every* p - also p = 3 mod 4, where
+/// `Field::sqrt` never takes it (two-adicity 1) - and Case3Mod4 with the exponent (p+1)/4 computed by the oracle.
+struct Pre<F: Field> {
+    ts: SqrtPrecomputation<F>,
+    c34: Option<SqrtPrecomputation<F>>,
+}
+
+fn precomp_rel<C: MontConfig<N>, const N: usize>(f: &Fld, pre: &Pre<Pf<C, N>>, t: &mut Tape<'_>, o: &mut Obs) -> R {
+    let (xe, cls, tp) = gen_input(t, f);
+    o.show(|| format!("{}: SqrtPrecomputation::sqrt(x), x={} [{}]", f.c.name, show(&xe), cls));
+    o.class(cls);
+    let c = &f.c;
+    let tw = &c.tw;
+    let x = Pf::<C, N>::from_o(&xe);
+    let zero = tw.is_zero(&xe);
+    let sq = c.euler_is_square(&xe);
+    o.nt(!zero && !c.is_one(&xe) && (!sq || tp));
+    o.class_if(!sq, "non-residue");
+    o.class_if(sq && !zero, "residue");
+    o.class_if(pre.c34.is_some(), "p = 3 mod 4");
+    o.evals(3);
+    let judge = |what: &str, r: Option<Pf<C, N>>| -> R {
+        match r {
+            Some(r) => {
+                ensure!(sq, format!("{}.some-for-non-residue", what), "{}: Some({}) for the non-residue {}", what, show(&r.to_o()), show(&xe));
+                let re = r.to_o();
+                ensure!(r.canonical() && tw.mul(&re, &re) == xe, format!("{}.wrong-root", what), "{}: sqrt({}) = {}", what, show(&xe), show(&re));
+                ensure!(!zero || tw.is_zero(&re), format!("{}.zero", what), "{}: sqrt(0) = {}", what, show(&re));
+            },
+            None => ensure!(!sq, format!("{}.none-for-square", what), "{}: None for the square {}", what, show(&xe)),
+        }
+        Ok(())
+    };
+    judge("tonelli_shanks", no_panic("tonelli_shanks", || pre.ts.sqrt(&x))?)?;
+    if let Some(p34) = &pre.c34 {
+        judge("case3mod4", no_panic("case3mod4", || p34.sqrt(&x))?)?;
+    }
+    // the configured precomputation has the documented shape
+    let three = &c.p % 4u32 == BigUint::from(3u32);
+    match Pf::<C, N>::SQRT_PRECOMP {
+        Some(SqrtPrecomputation::Case3Mod4 { modulus_plus_one_div_four }) => {
+            ensure!(three, "SQRT_PRECOMP.variant", "Case3Mod4 configured for p = 1 mod 4");
+            ensure!(vh_core::modint::big(modulus_plus_one_div_four) == (&c.p + 1u32) >> 2, "SQRT_PRECOMP.exponent", "(p+1)/4 = {:x?}", modulus_plus_one_div_four);
+        },
+        Some(SqrtPrecomputation::TonelliShanks { two_adicity, trace_of_modulus_minus_one_div_two, .. }) => {
+            ensure!(two_adicity == f.k().s, "SQRT_PRECOMP.two_adicity", "{} vs {}", two_adicity, f.k().s);
+            let tr = (&c.p - 1u32) >> (f.k().s as usize);
+            ensure!(vh_core::modint::big(trace_of_modulus_minus_one_div_two) == (&tr - 1u32) >> 1, "SQRT_PRECOMP.trace", "(t-1)/2 = {:x?}", trace_of_modulus_minus_one_div_two);
+        },
+        _ => return fail("SQRT_PRECOMP.none", "no square-root precomputation configured for a prime field"),
+    }
+    Ok(())
+}
+
+fn precomp_rels<C: MontConfig<N>, const N: usize>(out: &mut Vec<Rel>, name: &str, cases: u32) {
+    let f = Fld::new::<Pf<C, N>>(name);
+    let w = words(&f);
+    let trace: &'static [u64] = Box::leak(<Pf<C, N> as PrimeField>::TRACE_MINUS_ONE_DIV_TWO.0.to_vec().into_boxed_slice());
+    let ts = SqrtPrecomputation::TonelliShanks {
+        two_adicity: <Pf<C, N> as FftField>::TWO_ADICITY,
+        quadratic_nonresidue_to_trace: <Pf<C, N> as FftField>::TWO_ADIC_ROOT_OF_UNITY,
+        trace_of_modulus_minus_one_div_two: trace,
+    };
+    let c34 = if &f.c.p % 4u32 == BigUint::from(3u32) {
+        let e: BigUint = (&f.c.p + 1u32) >> 2;
+        let mut l = e.to_u64_digits();
+        l.resize(N, 0);
+        let l: &'static [u64] = Box::leak(l.into_boxed_slice());
+        Some(SqrtPrecomputation::Case3Mod4 { modulus_plus_one_div_four: l })
+    } else {
+        None
+    };
+    let pre = Pre { ts, c34 };
+    out.push(Rel::new(format!("sqrt-precomp/{}", name), cases, w, move |t, o| precomp_rel::<C, N>(&f, &pre, t, o)).shrink_iters(400));
+}
+
 // ---------------------------------------------------------------------------------------------
 // curve-coordinate helpers
 // ---------------------------------------------------------------------------------------------
@@ -308,6 +420,7 @@ where
             ensure!(tw.mul(&e0, &e0) == g, "get_ys.not-on-curve", "x={}: y0={} but y0^2 != x^3+ax+b = {}", show(xe), show(&e0), show(&g));
             ensure!(e1 == tw.neg(&e0), "get_ys.not-negatives", "x={}: y0={} y1={}", show(xe), show(&e0), show(&e1));
             ensure!(ocmp(&e0, &e1) != Ordering::Greater, "get_ys.order", "x={}: (y0, y1) = ({}, {}) is not sorted", show(xe), show(&e0), show(&e1));
+            o.class_if(c.d == 1 && e0 == Elem::P((&c.p - 1u32) >> 1), "root (p-1)/2 (sign boundary)");
         },
         None => ensure!(!sq, "get_ys.none-on-curve", "x={}: None but x^3+ax+b = {} is a square", show(xe), show(&g)),
     }
@@ -387,6 +500,7 @@ where
             ensure!(on_curve(&e0), "get_xs.not-on-curve", "y={}: x0={} does not satisfy the curve equation", show(ye), show(&e0));
             ensure!(e1 == tw.neg(&e0), "get_xs.not-negatives", "y={}: x0={} x1={}", show(ye), show(&e0), show(&e1));
             ensure!(ocmp(&e0, &e1) != Ordering::Greater, "get_xs.order", "y={}: (x0, x1) = ({}, {}) is not sorted", show(ye), show(&e0), show(&e1));
+            o.class_if(c.d == 1 && e0 == Elem::P((&c.p - 1u32) >> 1), "root (p-1)/2 (sign boundary)");
         },
         None => ensure!(!sq, "get_xs.none-on-curve", "y={}: None but x^2 = {} is a square", show(ye), show(x2.as_ref().unwrap())),
     }
@@ -506,7 +620,42 @@ fn relations(tier: Tier) -> Vec<Rel> {
     ext!(Fp2<ark_bn254::Fq2Config>, "bn254.Fq2", 800);
     ext!(Fp2<ark_test_curves::bls12_381::Fq2Config>, "test.bls12_381.Fq2", 400);
 
+    // towers over zoo prime fields with unusual modulus shapes / hand-written configurations (Fp3 over Goldilocks:
+    // two-adicity 32; Fp3 with q = 3 mod 4: Tonelli-Shanks with two-adicity 1)
+    macro_rules! z2 {
+        ($cfg:ty, $name:expr) => {
+            field_rels::<Fp2<$cfg>>(&mut out, $name, q(1000));
+        };
+    }
+    for_each_zoo_fp2!(z2);
+    macro_rules! z3 {
+        ($cfg:ty, $name:expr) => {
+            field_rels::<Fp3<$cfg>>(&mut out, $name, q(600));
+        };
+    }
+    for_each_zoo_fp3!(z3);
+    // residue test of the towers that have no square-root algorithm
+    legendre_rels::<Fp12<ark_bls12_381::Fq12Config>>(&mut out, "bls12_381.Fq12", q(60));
+    legendre_rels::<Fp12<ark_bls12_377::Fq12Config>>(&mut out, "bls12_377.Fq12", q(60));
+    legendre_rels::<Fp12<ark_bn254::Fq12Config>>(&mut out, "bn254.Fq12", q(80));
+    legendre_rels::<Fp6<ark_bls12_381::Fq6Config>>(&mut out, "bls12_381.Fq6", q(150));
+    legendre_rels::<Fp6<ark_bls12_377::Fq6Config>>(&mut out, "bls12_377.Fq6", q(150));
+    legendre_rels::<Fp6<ark_bn254::Fq6Config>>(&mut out, "bn254.Fq6", q(200));
+    legendre_rels::<Fp12<toy_cfg::S12_7>>(&mut out, "toy.Fp12_7", q(600));
+    legendre_rels::<Fp6<toy_cfg::S6c_7>>(&mut out, "toy.Fp6c_7", q(1000));
+    legendre_rels::<Fp6<toy_cfg::S6c_13>>(&mut out, "toy.Fp6c_13", q(1000));
+
     // curve-coordinate helpers on shipped curves
+    sw_rels::<ark_cp6_782::g1::Config>(&mut out, "cp6_782.G1", q(100));
+    sw_rels::<ark_mnt6_753::g1::Config>(&mut out, "mnt6_753.G1", q(150));
+    sw_rels::<ark_bw6_767::g1::Config>(&mut out, "bw6_767.G1", q(150));
+    sw_rels::<ark_bw6_767::g2::Config>(&mut out, "bw6_767.G2", q(150));
+    sw_rels::<ark_secp256r1::Config>(&mut out, "secp256r1", q(600));
+    sw_rels::<ark_secp384r1::Config>(&mut out, "secp384r1", q(400));
+    sw_rels::<ark_secq256k1::Config>(&mut out, "secq256k1", q(600));
+    sw_rels::<ark_vesta::VestaConfig>(&mut out, "vesta", q(600));
+    te_rels::<ark_curve25519::Curve25519Config>(&mut out, "curve25519", q(600));
+    te_rels::<ark_ed_on_mnt4_753::EdwardsConfig>(&mut out, "ed_on_mnt4_753", q(200));
     sw_rels::<ark_mnt6_753::g2::Config>(&mut out, "mnt6_753.G2", q(20));
     sw_rels::<ark_cp6_782::g2::Config>(&mut out, "cp6_782.G2", q(20));
     sw_rels::<ark_mnt4_753::g2::Config>(&mut out, "mnt4_753.G2", q(40));
@@ -562,6 +711,21 @@ fn relations(tier: Tier) -> Vec<Rel> {
     shipped!(ark_ed25519::FrConfig, 4, "ed25519.Fr", 1500);
     shipped!(ark_test_curves::bn384_small_two_adicity::FqConfig, 6, "test.bn384.Fq", 1000);
     shipped!(ark_test_curves::bn384_small_two_adicity::FrConfig, 6, "test.bn384.Fr", 1000);
+    shipped!(ark_cp6_782::FqConfig, 13, "cp6_782.Fq", 250);
+    shipped!(ark_bw6_767::FqConfig, 12, "bw6_767.Fq", 300);
+    shipped!(ark_ed_on_mnt4_753::FrConfig, 12, "ed_on_mnt4_753.Fr", 300);
+    shipped!(ark_mnt4_298::FqConfig, 5, "mnt4_298.Fq", 1000);
+    shipped!(ark_secp256r1::FqConfig, 4, "secp256r1.Fq", 1500);
+    shipped!(ark_secp256r1::FrConfig, 4, "secp256r1.Fr", 1500);
+    shipped!(ark_secp384r1::FqConfig, 6, "secp384r1.Fq", 1000);
+    shipped!(ark_secp384r1::FrConfig, 6, "secp384r1.Fr", 1000);
+    shipped!(ark_curve25519::FrConfig, 4, "curve25519.Fr", 1500);
+    shipped!(ark_ed_on_bls12_381::FrConfig, 4, "ed_on_bls12_381.Fr", 1500);
+    shipped!(ark_ed_on_bls12_381_bandersnatch::FrConfig, 4, "bandersnatch.Fr", 1500);
+    shipped!(ark_ed_on_bn254::FrConfig, 4, "ed_on_bn254.Fr", 1500);
+    shipped!(ark_ed_on_bls12_377::FrConfig, 4, "ed_on_bls12_377.Fr", 1500);
+    shipped!(ark_ed_on_mnt4_298::FrConfig, 5, "ed_on_mnt4_298.Fr", 1000);
+    shipped!(ark_ed_on_cp6_782::FrConfig, 6, "ed_on_cp6_782.Fr", 1000);
 
     // the zoo: every field (two-adicity ladder A1..A47, p = 3 mod 4, no spare bit, hand-written configurations)
     macro_rules! zoo {
@@ -570,6 +734,13 @@ fn relations(tier: Tier) -> Vec<Rel> {
         };
     }
     vh_core::for_each_zoo_field!(zoo);
+    // both SqrtPrecomputation variants called directly, on every zoo field
+    macro_rules! zoo_pre {
+        ($ty:ty, $cfg:ty, $n:expr, $name:expr, $g:expr, $s:expr) => {
+            precomp_rels::<$cfg, $n>(&mut out, &format!("zoo.{}", $name), q(if $n <= 1 { 1500 } else if $n <= 4 { 800 } else if $n <= 8 { 300 } else { 120 }));
+        };
+    }
+    vh_core::for_each_zoo_field!(zoo_pre);
     macro_rules! tiny {
         ($ty:ty, $cfg:ty, $n:expr, $name:expr, $g:expr, $s:expr) => {
             field_all::<$ty>(&mut out, &format!("zoo.{}", $name));
@@ -621,13 +792,31 @@ fn relations(tier: Tier) -> Vec<Rel> {
         }};
     }
     vh_core::for_each_toy_te!(toyte);
+    // toy curves over F_49 and F_343: every x of the extension field (lexicographic order of the two roots, roots
+    // with a zero top coefficient, g(x) in the prime subfield)
+    macro_rules! toyext {
+        ($cfg:ty, $name:expr, $n:expr, $h:expr, $r:expr) => {{
+            let cv = sw_crv::<$cfg>(&format!("toy.{}", $name));
+            let d = cv.f.c.d;
+            out.push(
+                Rel::new(format!("sw-from-x-all/toy.{}", $name), 0, d, move |t, o| {
+                    let co: Vec<BigUint> = (0..cv.f.c.d).map(|_| BigUint::from(t.below(7))).collect();
+                    let xe = cv.f.c.tw.unflatten(&co);
+                    o.show(|| format!("{}: x={}", cv.name, show(&xe)));
+                    sw_on::<$cfg>(&cv, &xe, o)
+                })
+                .exhaustive(move || all_tapes(7, d)),
+            );
+        }};
+    }
+    vh_core::for_each_toy_sw_ext!(toyext);
     out
 }
 
 fn main() {
     vh_core::engine::main(PropSpec {
         id: "C11",
-        rule: "x is decoded from a proptest tape into one of: 0, 1, -1, an edge-biased arbitrary element, a square s^2, n*s^2 for a quadratic non-residue n found by the oracle, zeta^j and zeta^j*s^2 for zeta = n^t of order exactly 2^s (q-1 = 2^s t; j = 1, 2, 2^m, odd, arbitrary: worst-case Tonelli-Shanks rounds), an element of a proper subfield of an extension; over 90 zoo prime fields (two-adicity 1..47, p = 3 mod 4, no spare bit, hand-written configs), 18 shipped prime fields, every shipped Fp2/Fp3/Fp4/Fp6-2over3, toy towers; tiny fields and toy towers exhaustively. Whether x is a square is decided exactly by Euler's criterion x^((q-1)/2) (BigUint modpow in prime fields; in towers the inner power x^(1+p+..+p^(d-1)) through the schoolbook oracle Frobenius); a reported root must square to x under the oracle product. Curve helpers: x (y) = 0, the generator's coordinate, neighbours of it, arbitrary; toy curves all x / all y; the curve equation is evaluated by the oracle and the pair must be {r, -r}, on the curve and sorted in the documented lexicographic order. A case is non-trivial when x is outside {0,1} and is a non-residue, lies in a proper subfield of an extension, or has 2-power order; for helpers when the input is off the curve or yields a 2-torsion/ x = 0 solution. distinct = distinct decoded choice sequences.",
+        rule: "x is decoded from a proptest tape into one of: 0, 1, -1, an edge-biased arbitrary element, a square s^2, n*s^2 for a quadratic non-residue n found by the oracle, zeta^j and zeta^j*s^2 for zeta = n^t of order exactly 2^s (q-1 = 2^s t; j = 1, 2, 2^m, odd, arbitrary: worst-case Tonelli-Shanks rounds), an element of a proper subfield of an extension; over the zoo prime fields (two-adicity 1..47, p = 3 mod 4, no spare bit, top limb 2^63, hand-written configs), 33 shipped prime fields, every shipped Fp2/Fp3/Fp4/Fp6-2over3, toy towers, and 15 towers over zoo prime fields with unusual modulus shapes (Fp2 x10, Fp3 x5: Fp3 over Goldilocks with two-adicity 32, Fp3 with q = 3 mod 4, hand-written base configurations); tiny fields and toy towers exhaustively. sqrt-precomp/ calls both public SqrtPrecomputation variants directly on every zoo field: Tonelli-Shanks assembled from TWO_ADICITY, TWO_ADIC_ROOT_OF_UNITY and TRACE_MINUS_ONE_DIV_TWO for every p (also p = 3 mod 4, where Field::sqrt never takes it) and Case3Mod4 with (p+1)/4 computed by the oracle, and compares the configured SQRT_PRECOMP constants with the oracle's. legendre/ checks the residue symbol alone on Fp6-3over2 and Fp12 (shipped bls12_381, bls12_377, bn254 and toy), which have no square-root algorithm. Whether x is a square is decided exactly by Euler's criterion x^((q-1)/2) (BigUint modpow in prime fields; in towers the inner power x^(1+p+..+p^(d-1)) through the schoolbook oracle Frobenius); a reported root must square to x under the oracle product. Curve helpers: x (y) = 0, the generator's coordinate, neighbours of it, arbitrary; toy curves all x / all y (prime fields up to 1021, F_49 and F_343: every x of the extension field; the class `root (p-1)/2` counts the cases at the sign boundary); the curve equation is evaluated by the oracle and the pair must be {r, -r}, on the curve and sorted in the documented lexicographic order. A case is non-trivial when x is outside {0,1} and is a non-residue, lies in a proper subfield of an extension, or has 2-power order; for helpers when the input is off the curve or yields a 2-torsion/ x = 0 solution. distinct = distinct decoded choice sequences.",
         assumptions: &[
             "num-bigint arithmetic is correct (oracle)",
             "tower multiplication/Frobenius oracle of C02 (schoolbook, NONRESIDUE constants only)",
